@@ -32,8 +32,9 @@ def symptom_of(err, rc):
     if m:
         return "ubsan:" + re.sub(r"^/[^ ]*/kernel/", "kernel/", m.group(1).strip())
     if "FATAL ERROR" in err or "Assertion" in err:
-        msg = ""
-        for key in ("Message", "Expression", "Function"):
+        mm = re.search(r"FATAL ERROR: *([^\n]*)", err)
+        msg = mm.group(1).strip()[:200] if mm else ""
+        for key in ("Expression", "Function"):
             mm = re.search(key + r"\.*: *([^\n]*)", err)
             if mm:
                 msg += (" | " if msg else "") + mm.group(1).strip()[:160]
